@@ -55,6 +55,10 @@ EXPRS = [
     ['meta.missing == "x"'],
     ['meta.package == "p"', 'meta.recipe == "r" LIMIT 1'],
     ['meta.recipe == "r" LIMIT 1 ORDER BY build.date ASC', 'meta.package == "q" LIMIT 1'],
+    ['build.date != "2022-01-01"'],
+    ['meta.package == "p" && meta.missing != "x"'],
+    ['meta.missing != meta.absent'],
+    ['build.date == meta.absent || meta.package != meta.recipe LIMIT 2'],
 ]
 
 
@@ -223,8 +227,12 @@ def ref_pred(pred, a):
             l, r = pred.split(op, 1)
             return (ref_pred(l, a) or ref_pred(r, a)) if op == '||' else (ref_pred(l, a) and ref_pred(r, a))
     import re
-    m = re.match(r'^([\w.]+) (==|!=|>=|<=|<|>) "([^"]*)"$', pred)
+    m = re.match(r'^([\w.]+) (==|!=|>=|<=|<|>) (?:"([^"]*)"|([\w.]+))$', pred)
     f, op, lit = m.group(1), m.group(2), m.group(3)
+    if m.group(4) is not None:
+        lit = ref_field(m.group(4), a)        # a field on the right hand side (None: does not exist)
+        if lit is None and op not in ('==', '!='):
+            raise ValueError('ordering comparison with a missing field')
     v = ref_field(f, a)
     if op == '==':
         return v == lit
@@ -360,7 +368,7 @@ def check_retain(n0: bool, n1: bool, n2: bool, p0: bool, p1: bool, p2: bool, k0:
     return V.verdict(ok, fact)
 
 
-DATE_EXPRS = (3, 4)
+DATE_EXPRS = (3, 4, 14, 17)
 
 
 def PLAN(tier):
